@@ -99,6 +99,21 @@ pub fn evaluate(sc: &Scenario) -> Eval {
             if mo.sols.iter().any(|s| !s.mutation_relevant.is_empty()) {
                 ev.note("has_computed_mutations");
             }
+            // reach probes for the rarer ingredients
+            if w.stale_prelude {
+                ev.note("cache_used_before_older_state");
+            }
+            if w.prefix_prelude {
+                ev.note("cache_used_before_shorter_set");
+            }
+            if w.faults.iter().any(|f| matches!(f, Fault::Sparse)) {
+                ev.note("sparse_device");
+            }
+            if let model::Expect::Err { sols } = &mo.expect {
+                if sols.values().any(|e| matches!(e, model::ExpectErr::MutDecode | model::ExpectErr::MutDuplicate(_))) {
+                    ev.note("undecodable_data_output");
+                }
+            }
         }
         Scenario::AltNumbering { w, w2, maps, spec } => {
             let a = oracle::run_real(&Arc::new(w.clone()), spec, false);
@@ -312,8 +327,9 @@ fn compare_numberings(
                             true // which single failure is reported may follow the numbering
                         }
                     }
-                    (SolErr::MutDecode, SolErr::MutDecode) => true,
-                    (SolErr::MutDuplicate(x), SolErr::MutDuplicate(y)) => x == y,
+                    // a solution with several undecodable outputs: which of them is met first
+                    // follows the order in which the outputs are listed, which no statement fixes
+                    (SolErr::MutDecode | SolErr::MutDuplicate(_), SolErr::MutDecode | SolErr::MutDuplicate(_)) => true,
                     _ => false,
                 };
                 if !ok {
@@ -345,6 +361,20 @@ fn compare_permuted(a: &Verdict, b: &Verdict, perm: &[usize]) -> Result<(), Stri
             }
             Ok(())
         }
+        (Verdict::Err { sols: s1, .. }, Verdict::Err { sols: s2, .. })
+            if s1.values().chain(s2.values()).any(|e| matches!(e, SolErr::MutDecode | SolErr::MutDuplicate(_))) =>
+        {
+            // undecodable data outputs are reported for one solution only (the first one met):
+            // with several such solutions, which one is named follows the order of the set. The
+            // statement asks for the same verdict; both must be mutation errors.
+            let both = s1.values().all(|e| matches!(e, SolErr::MutDecode | SolErr::MutDuplicate(_)))
+                && s2.values().all(|e| matches!(e, SolErr::MutDecode | SolErr::MutDuplicate(_)));
+            if both {
+                Ok(())
+            } else {
+                Err(format!("errors {s1:?} vs {s2:?}"))
+            }
+        }
         (Verdict::Err { sols: s1, .. }, Verdict::Err { sols: s2, .. }) => {
             let mapped: BTreeMap<u16, &SolErr> = perm
                 .iter()
@@ -368,6 +398,7 @@ fn compare_permuted(a: &Verdict, b: &Verdict, perm: &[usize]) -> Result<(), Stri
 pub enum Batch {
     C01Model,
     C01Faulty,
+    C01History,
     C02Determinism,
     C02History,
     C03Overlay,
@@ -382,6 +413,7 @@ impl Batch {
         match self {
             Batch::C01Model => "c01-model",
             Batch::C01Faulty => "c01-model-f1",
+            Batch::C01History => "c01-history",
             Batch::C02Determinism => "c02-determinism",
             Batch::C02History => "c02-history",
             Batch::C03Overlay => "c03-overlay",
@@ -394,7 +426,24 @@ impl Batch {
 }
 
 fn add_f1(rng: &mut Rng, case: &mut gen::Case) {
+    add_faults(rng, case, false)
+}
+
+/// `sparse_ok`: one case in four gets, instead of bad keys, a device that leaves out the keys
+/// it has no value for (answers shorter than requested, F3 device-wide). The overlay the
+/// two-pass entry point builds must then still give every key of a touched contract a value.
+fn add_faults(rng: &mut Rng, case: &mut gen::Case, sparse_ok: bool) {
     let cands = gen::fault_candidates(&case.abs);
+    if sparse_ok && rng.chance(1, 4) {
+        case.abs.faults = vec![Fault::Sparse];
+        case.abs.entry = crate::wl::Entry::TwoPass;
+        gen::finalize(&mut case.abs, &case.numberings);
+        case.w = gen::realize(&case.abs, &case.numberings);
+        if let Some((alts, w2)) = &mut case.alt {
+            *w2 = gen::realize(&case.abs, alts);
+        }
+        return;
+    }
     if cands.is_empty() {
         return;
     }
@@ -458,7 +507,7 @@ pub fn scenarios(batch: Batch, run_seed: u64) -> (Vec<Scenario>, u64) {
     match batch {
         Batch::C01Model | Batch::C01Faulty | Batch::C03Overlay | Batch::C03Faulty => {
             if matches!(batch, Batch::C01Faulty | Batch::C03Faulty) {
-                add_f1(&mut fault_rng, &mut case);
+                add_faults(&mut fault_rng, &mut case, batch == Batch::C03Faulty);
             }
             if matches!(batch, Batch::C01Model) && fault_rng.chance(1, 4) {
                 // raw mode: the graph is whatever the slicing rule says the arrays mean
@@ -495,7 +544,7 @@ pub fn scenarios(batch: Batch, run_seed: u64) -> (Vec<Scenario>, u64) {
                 });
             }
         }
-        Batch::C02History => {
+        Batch::C02History | Batch::C01History => {
             // two unrelated sets, the second one asking PredicateExists for solutions that exist
             let mut cfg2 = cfg.clone();
             cfg2.pex = true;
@@ -607,6 +656,7 @@ fn batch_of(name: &str) -> Option<Batch> {
     [
         Batch::C01Model,
         Batch::C01Faulty,
+        Batch::C01History,
         Batch::C02Determinism,
         Batch::C02History,
         Batch::C03Overlay,
@@ -630,6 +680,9 @@ pub fn plan(prop: &str, tier: &str) -> Vec<BatchPlan> {
         "C01" => vec![
             mk(Batch::C01Model, 24_000, 1_500_000, false),
             mk(Batch::C01Faulty, 8_000, 500_000, true),
+            // the verdict is a function of the inputs of *this* call: the same reference model
+            // must hold for a set that is checked right after another one in the same execution
+            mk(Batch::C01History, 3_000, 200_000, false),
         ],
         "C02" => vec![
             mk(Batch::C02Determinism, 8_000, 600_000, false),
@@ -792,7 +845,7 @@ pub fn describe(prop: &str) -> PropText {
         "inputs and schedules are sampled from one seed; a clean batch is evidence, not proof".to_string(),
     ];
     let rule = match prop {
-        "C01" => "cases = generated predicate DAGs (structured with two numberings, or raw/corrupted encodings) x solution sets x run configuration; each case runs the real checker under 2-3 seeded schedules against M-twopass plus the history invariants over the device log. distinct = distinct (workload shape hash, interleaving hash of region start/finish order, device event-log hash); non-trivial = the execution had at least one parallel region with a scheduling choice and at least one context switch (and, in the F1 batch, a fault actually fired)",
+        "C01" => "cases = generated predicate DAGs (structured with two numberings, or raw/corrupted encodings) x solution sets x run configuration; each case runs the real checker under 2-3 seeded schedules against M-twopass plus the history invariants over the device log; a third batch (c01-history) checks a set right after an unrelated set in the same execution (same simulated threads, same process state, addresses reused) against the same model. distinct = distinct (workload shape hash, interleaving hash of region start/finish order, device event-log hash); non-trivial = the execution had at least one parallel region with a scheduling choice and at least one context switch (and, in the F1 batch, a fault actually fired)",
         "C02" => "cases = generated workloads (graphs, compute with several failing children, PredicateExists, F1 faults); each is run once sequentially and then under 8 seeded schedules (random/PCT depth 1-4/URW, 1..16 workers, op- or seam-granular switching); results must be identical. distinct/non-trivial as for C01",
         "C03" => "cases = workloads with pre-state, declared and computed mutations (incl. deletions, carry, wrap-around, external contracts) and post/pre reads at random graph positions; oracle M-overlay/M-twopass + history invariants; three batches: fault-free, F1 persistent bad keys (exact oracle), F2 transient error (relaxed oracle: fault-free result or the injected error, never a wrong value). distinct/non-trivial as for C01, fault batches additionally need a fired fault",
         "C04" => "cases = accepted solution sets with 2+ members; each is checked under 3 seeded permutations x seeded schedules: content address, check_set verdict, two-pass verdict, total gas and per-solution computed mutations must not change. A dedicated sub-batch builds sets whose members propose different values for one (contract,key). distinct/non-trivial as for C01",
